@@ -65,7 +65,8 @@ P = {
          "Faults are injected at the libc boundary; kernel-level partial failures (e.g. at close/fsync) are not modelled because the code under test does not call them.", "5/C19"),
 }
 FUZZ = {"C01", "C02", "C04", "C05", "C06", "C09", "C10"}
-REL_NOTE = " The symbol-level checks (C01-C06, C08-C11, C15, C16) also run a plain-features child: a release-profile harness whose fast_qr has NO cargo feature at all (no svg, no image, no hooks), the library a downstream crate gets by default. Every run ends with two child stages: (1) release-profile: the same monitors re-run the quick workload (other seeds) against fast_qr compiled as users ship it (opt-level 3, no overflow checks, no debug assertions, and WITHOUT the verif_hooks feature, except for the hook-bound checks C07 and C17); (2) environment: every third job again in a process with a cleared environment refilled from a profile of commonly consulted variables, in a working directory containing decoy files, with a standard error that cannot be written, under an LD_PRELOAD monitor (harness/shim/envspy.c) that logs every variable consulted through getenv, answers unset ones with a truthy value, skews the wall clock and reports a terminal. Jobs run in a seeded shuffled order; builders are configured through shuffled / repeated setter calls and used builders; the input is handed in through varied carriers (String / Vec with spare capacity / slices), the built symbol is handed to the monitors through varied transports (clone, clone_from into other slots, other thread), and one build in six follows a direct use of the crate's other public API or a refused (panicking, caught) request on the same thread."
+PLAIN = {"C01", "C02", "C03", "C04", "C05", "C06", "C08", "C09", "C10", "C11", "C15", "C16"}
+REL_NOTE = " The symbol-level checks (C01-C06, C08-C11, C15, C16) also run a plain-features child: a release-profile harness whose fast_qr has NO cargo feature at all (no svg, no image, no hooks), the library a downstream crate gets by default. Every run ends with two child stages: (1) release-profile: the same monitors re-run the quick workload (other seeds) against fast_qr compiled as users ship it (opt-level 3, no overflow checks, no debug assertions, and WITHOUT the verif_hooks feature, except for the hook-bound checks C07 and C17); (2) environment: every third job again in a process with a cleared environment refilled from a profile of commonly consulted variables, in a working directory containing decoy files, with a standard error that cannot be written, an allocator that hands out minimally aligned blocks (non-rasterising checks) and yields now and then, under an LD_PRELOAD monitor (harness/shim/envspy.c) that logs every variable consulted through getenv, answers unset ones with a truthy value, skews the wall clock and reports a terminal. Jobs run in a seeded shuffled order; builders are configured through shuffled / repeated setter calls and used builders; the input is handed in through varied carriers (String / Vec with spare capacity / slices), the built symbol is handed to the monitors through varied transports (clone, clone_from into other slots, other thread), and one build in six follows a direct use of the crate's other public API or a refused (panicking, caught) request on the same thread."
 ALL = ["C%02d" % i for i in range(1, 20)]
 
 def main():
@@ -85,7 +86,7 @@ def main():
                 "engine": "vcheck",
                 "level_claimed": {"category": cat, "text": text, "design_ref": f"DESIGN.md section {ref}"},
                 "level_note": note + REL_NOTE,
-                "technique": tech + ("; coverage-guided libFuzzer stage judged by the same oracle (thorough)" if pid in FUZZ else "") + "; release-profile child stage (fast_qr as shipped: no overflow checks, no debug assertions, hooks off) and hostile-environment child stage (cleared/refilled environment, getenv/clock/isatty interposition, unwritable stderr)",
+                "technique": tech + ("; coverage-guided libFuzzer stage judged by the same oracle (thorough)" if pid in FUZZ else "") + "; release-profile child stage (fast_qr as shipped: no overflow checks, no debug assertions, hooks off) and hostile-environment child stage (cleared/refilled environment, getenv/clock/isatty interposition, unwritable stderr, hostile allocator)" + ("; plain-features child stage (fast_qr with no cargo feature at all)" if pid in PLAIN else ""),
             })
         else:
             na.append({"property_id": pid, "reason": "check under construction in this session; the technique applies (see DESIGN.md section 5) and the entry moves to checks once its monitor is built and silent on the unchanged tree"})
